@@ -5,7 +5,8 @@
     See design.d/TIE_tensorbuild.md. *)
 From Coq Require Import ZArith List. Import ListNotations.
 From TV Require Import spec.Storage spec.PyLib model.TensorBuild model.TensorBuildPy proofs.TensorBuildLemmas
-  proofs.TensorBuildTop proofs.GenTensorBuild_tree proofs.GenTensorBuild_emit proofs.GenTensorBuild_equiv.
+  proofs.TensorBuildTop proofs.GenTensorBuild_tree proofs.GenTensorBuild_emit proofs.GenTensorBuild_build
+  proofs.GenTensorBuild_items proofs.GenTensorBuild_validate proofs.GenTensorBuild_equiv.
 From TV Require gen.TensorBuildGen.
 Module G := TensorBuildGen.
 Open Scope Z_scope.
@@ -78,3 +79,84 @@ Theorem TIE_tensorbuild_roundtrip_gen : forall fmt dims es fuel,
     /\ wf_tensorb true t = true /\ validate t = true.
 Proof. exact gen_roundtrip. Qed.
 Print Assumptions TIE_tensorbuild_roundtrip_gen.
+
+(** The validation of allocate_taco_structure / taco_structure_to_cffi (compile/_cffi_ownership.py)
+    accepts exactly what [validate] accepts, for every stored tensor; on success it hands the five lists
+    ([stored t]) to cffi. *)
+Theorem TIE_tensorbuild_validate : forall t : tensor Z,
+  G.taco_structure_to_cffi Z 0 Z.add Z.eqb (indices_of (levels t)) (vals t) (map cint (levels t)) (Storage.dims t)
+    (map Z.of_nat (ordering t))
+  = if validate t then Val (stored t) else Exc.
+Proof. exact gen_validate_equiv. Qed.
+Print Assumptions TIE_tensorbuild_validate.
+
+(** Tensor.from_aos = [build]: for every valid format, ALL dimensions and entries -- the stored lists on
+    success, an exception exactly when the model reports an error (EIndex, EValue). *)
+Theorem TIE_tensorbuild_from_aos_equiv : forall fmt dims (es : list entry) fuel,
+  valid_formatb fmt = true -> (length (fmodes fmt) <= fuel)%nat ->
+  G.from_aos Z 0 Z.add Z.eqb fuel (map fst es) (map snd es) dims (gfmt fmt)
+  = match build fmt dims es with Ok t => Val (stored t) | Err _ => Exc end.
+Proof. exact gen_from_aos_equiv. Qed.
+Print Assumptions TIE_tensorbuild_from_aos_equiv.
+
+Theorem TIE_tensorbuild_from_dok_equiv : forall fmt dims (d : list entry) fuel,
+  valid_formatb fmt = true -> (length (fmodes fmt) <= fuel)%nat ->
+  G.from_dok Z 0 Z.add Z.eqb fuel d dims (gfmt fmt)
+  = match from_dok fmt dims d with Ok t => Val (stored t) | Err _ => Exc end.
+Proof. exact gen_from_dok_equiv. Qed.
+Print Assumptions TIE_tensorbuild_from_dok_equiv.
+
+(** The decoder: Tensor.items (with coordinate[i] = prefix[mode_ordering.index(i)]) on any well-formed
+    stored tensor (strict or with a scratch value) yields exactly Storage.entries, in storage order. *)
+Theorem TIE_tensorbuild_items : forall strict (t : tensor Z) fuel,
+  wf_tensorb strict t = true -> (length (levels t) < fuel)%nat ->
+  G.items Z 0 Z.add Z.eqb fuel (Z.of_nat (length (ordering t))) (map gmode (levels t)) (Storage.dims t)
+    (map Z.of_nat (ordering t)) (indices_of (levels t)) (vals t)
+  = Val (entries 0 t).
+Proof. exact gen_items_equiv. Qed.
+Print Assumptions TIE_tensorbuild_items.
+
+Theorem TIE_tensorbuild_to_dok : forall (its : list entry) ez,
+  G.to_dok Z 0 Z.add Z.eqb its ez = Val (to_dok ez its).
+Proof. exact gen_to_dok_equiv. Qed.
+Print Assumptions TIE_tensorbuild_to_dok.
+
+(** C09_roundtrip end to end on regenerated functions only: regenerated from_aos, then regenerated
+    items and to_dok on what it stored. *)
+Theorem TIE_tensorbuild_roundtrip_full : forall fmt dims es fuel,
+  valid_formatb fmt = true -> dims_okb fmt dims = true -> all_in_rangeb dims es = true ->
+  (length (fmodes fmt) < fuel)%nat ->
+  exists t,
+    G.from_aos Z 0 Z.add Z.eqb fuel (map fst es) (map snd es) dims (gfmt fmt) = Val (stored t)
+    /\ G.items Z 0 Z.add Z.eqb fuel (Z.of_nat (length (ordering t))) (map gmode (levels t)) (Storage.dims t)
+         (map Z.of_nat (ordering t)) (indices_of (levels t)) (vals t) = Val (items_spec t)
+    /\ G.to_dok Z 0 Z.add Z.eqb (items_spec t) false = Val (to_dok_spec t)
+    /\ (forall c v, In (c, v) (to_dok_spec t) <-> v = sum_at c es /\ v <> 0)
+    /\ NoDup (map fst (to_dok_spec t))
+    /\ format_of t = fmt /\ Storage.dims t = dims /\ wf_tensorb true t = true.
+Proof. exact gen_roundtrip_full. Qed.
+Print Assumptions TIE_tensorbuild_roundtrip_full.
+
+(** from_aos on arbitrary coordinate / value lists (zip strict: a length mismatch is an exception),
+    from_soa (zip of the columns, strict) and from_lol (lol_to_coordinates_and_values) against the
+    model's entry points; every error of the model (EIndex, ELength, EValue) is an exception. *)
+Theorem TIE_tensorbuild_from_aos_general : forall fmt dims cs vs fuel,
+  valid_formatb fmt = true -> (length (fmodes fmt) <= fuel)%nat ->
+  G.from_aos Z 0 Z.add Z.eqb fuel cs vs dims (gfmt fmt)
+  = match from_aos fmt dims cs vs with Ok t => Val (stored t) | Err _ => Exc end.
+Proof. exact gen_from_aos_general. Qed.
+Print Assumptions TIE_tensorbuild_from_aos_general.
+
+Theorem TIE_tensorbuild_from_soa : forall fmt dims cols vs fuel,
+  valid_formatb fmt = true -> (length (fmodes fmt) <= fuel)%nat ->
+  G.from_soa Z 0 Z.add Z.eqb fuel cols vs dims (gfmt fmt)
+  = match from_soa fmt dims cols vs with Ok t => Val (stored t) | Err _ => Exc end.
+Proof. exact gen_from_soa_equiv. Qed.
+Print Assumptions TIE_tensorbuild_from_soa.
+
+Theorem TIE_tensorbuild_from_lol : forall fmt dims x fuel,
+  valid_formatb fmt = true -> (length (fmodes fmt) <= fuel)%nat -> (lol_depth x < fuel)%nat ->
+  G.from_lol Z 0 Z.add Z.eqb fuel (glol x) dims (gfmt fmt)
+  = match from_lol fmt dims x with Ok t => Val (stored t) | Err _ => Exc end.
+Proof. exact gen_from_lol_equiv. Qed.
+Print Assumptions TIE_tensorbuild_from_lol.
